@@ -8,7 +8,7 @@ from ..engine.flow import Automaton, MayRaise, Runner, State, violation
 from ..engine.match import Spec, loop_doms, residual
 from ..engine.report import Check
 from ..engine.terms import C, Term, implies, mentions, mk_not, show
-from ..engine.walker import Event
+from ..engine.walker import Event, swallowed_by, try_inside_loops
 from .common import CONS, functions_mentioning, short
 
 RP = "skepticoin.networking.remote_peer.ConnectedRemotePeer."
@@ -210,6 +210,16 @@ def r09_5(ck: Check) -> None:
         ck.ok("R09.5", "add_block_to_buffer appends to self.write_buffer", "", s.fi.loc)
     else:
         ck.violated("R09.5", "add_block_to_buffer appends to self.write_buffer", "buffer attribute changed", s.fi.loc)
+    # buffering is ONLY buffering: the relay handler buffers a block before it is validated and relies on clearing the buffer to drop it
+    other = [e for e in s.events if e.kind == "call" and e not in ap and (any(t.startswith("skepticoin.") for t in e.targets)
+                                                                         or (e.parts and e.parts[0][0] == "a" and e.parts[0][2] in
+                                                                             ("execute", "executemany", "commit", "cursor", "write")))]
+    construct = "add_block_to_buffer does nothing but append (no write to the database: an unvalidated block must stay droppable)"
+    if other:
+        ck.violated("R09.5", construct, "also performs %s — a block buffered before validation can reach the block store although it is rejected"
+                    % [e.describe()[:80] for e in other[:3]], other[0].loc)
+    else:
+        ck.ok("R09.5", construct, "", s.fi.loc)
 
 
 def r09_6(ck: Check) -> None:
@@ -258,7 +268,8 @@ def r09_8(ck: Check) -> None:
     sends = [e for e in s.events if e.kind == "call" and e.parts and e.parts[0] == ("a", spl.term("p"), "send_message")]
     construct = "broadcast_message: exactly one send_message(message) per active peer; a peer whose socket fails is skipped, not fatal"
     ok = (len(sends) == 1 and sends[0].term[2] == (spl.term("m"),) and list(loop_doms(sends[0])) == spl.loops and not residual(sends[0], ())
-          and not any(l[2] for l in sends[0].loops) and bool(sends[0].tries))
+          and not any(l[2] for l in sends[0].loops) and try_inside_loops(sends[0])
+          and all(swallowed_by(ck.repo, sends[0], x) is sends[0].tries[-1] for x in ("OSError", "ValueError", "KeyError")))
     if ok:
         ck.ok("R09.8", construct, "", sends[0].loc)
     else:
@@ -308,6 +319,8 @@ def check(ck: Check) -> None:
     ck.run("R09.5", "buffer alias agreement", lambda: r09_5(ck))
     ck.run("R09.6", "relay exactly once", lambda: r09_6(ck))
     ck.run("R09.8", "relay fan-out", lambda: r09_8(ck))
+    from .c13 import r13_6
+    ck.run("R13.6", "the roll-back target of a rejected relayed block exists from start-up on", lambda: r13_6(ck))
     ck.run("R09.9", "what 'outside bulk download' and 'is the new head' mean", lambda: r09_9(ck))
     ck.assume("each delivery is one run of the handler from a state satisfying what the previous run re-established (inductive reading); "
               "outside bulk download last_known_valid_coinstate is the state already served, so the rollback's pool cleanup is the identity")
